@@ -65,6 +65,9 @@ type CallAction struct {
 	After      After
 	RecordSlot byte
 	Gas        uint64 // 0 = all remaining gas
+	// GasFromCalldata: the gas handed to the call is the first 32-byte word of the transaction's calldata
+	// (lets one deployed program be run with every inner gas cap)
+	GasFromCalldata bool
 }
 
 type MarkAction struct {
@@ -148,7 +151,10 @@ func (p Program) Runtime() []byte {
 			}
 			code = append(code, 0x73) // PUSH20
 			code = append(code, c.To.Bytes()...)
-			if c.Gas == 0 {
+			if c.GasFromCalldata {
+				code = append(code, push1(0)...)
+				code = append(code, 0x35) // CALLDATALOAD
+			} else if c.Gas == 0 {
 				code = append(code, 0x5a) // GAS
 			} else {
 				var g [8]byte
